@@ -45,6 +45,14 @@ def main():
     else:
         scope = stable
     broken = sorted(scope - passed)
+    # tests that need /repo's own untracked ./branch/.bzr directory fail in ANY clean worktree
+    # (verified on an unmodified worktree): not attributable to a change under test
+    if os.path.realpath(wt) != "/repo":
+        art = [t for t in broken if t.startswith("breezy.tests.blackbox.test_version.") or
+               t.startswith("breezy.tests.test_version.")]
+        if art:
+            print("  (ignored: %d test_version tests that fail in every clean worktree)" % len(art))
+            broken = [t for t in broken if t not in art]
     print("suite: %d stable-pass tests in scope, %d passed, %d not passing; pytest: %s" % (
         len(scope), len(scope & passed), len(broken), " | ".join(tail)))
     for b in broken[:40]:
